@@ -50,6 +50,7 @@ def one_history(exe, root, seed, steps, chk, stats):
     s = sim.Sim(a, rng.fork())
     s.populate(3 + rng.below(3))
     s.churn = rng.chance(1, 2)
+    s.resurrect = (seed % 3 == 0)      # a third of the histories: deleted files come back with the same bytes
     force = rng.choice([[], ['--test-force-murmur3'], ['--test-force-spooky2']])
     r = s.sync(*force)
     for step in range(steps):
@@ -69,6 +70,49 @@ def one_history(exe, root, seed, steps, chk, stats):
             return ('after command %r (%s): %s' % (name, cfg, pr[0]), 'config: %s\nproblems:\n%s\nhistory:\n%s' % (cfg, '\n'.join(pr[:10]), hist))
     a.destroy()
     return None
+
+def comeback_history(exe, root, seed, stats):
+    """parity updated but the state not saved, then the old bytes come back: files are deleted (or rewritten), a
+    sync updates the parity and dies before the final content save, the deleted files return with the same bytes
+    (same or new time-stamp), a plain sync follows.  The recorded DELETED/past hashes then describe data the parity
+    no longer holds; every stripe recorded as synced must still have parity = gen(data)"""
+    rng = e2e.Rng(seed)
+    a = e2e.Arr(root, exe, ndisks=2 + rng.below(3), nparity=1 + rng.below(3), hashsize=rng.choice([16, 16, 8]), ncontent=1)
+    s = sim.Sim(a, rng.fork(), weird_names=False)
+    s.populate(3 + rng.below(3))
+    if s.sync().rc != 0:
+        a.destroy(); return None
+    files = [(d, rel) for d, rel in s.existing_files() if os.path.getsize(a.path(d, rel)) > 0]
+    if not files:
+        a.destroy(); return None
+    victims = []
+    for _ in range(1 + rng.below(3)):
+        d, rel = rng.choice(files)
+        if (d, rel) in [v[:2] for v in victims]: continue
+        p = a.path(d, rel)
+        victims.append((d, rel, a.read(d, rel), os.stat(p).st_mtime_ns))
+        os.unlink(p); s.log('delete %s/%r' % (d, rel))
+    how = rng.choice(['kill-after-sync', 'kill-after-sync', 'partial-then-kill'])
+    if how == 'partial-then-kill':
+        s.run('sync', '-B', str(1 + rng.below(3)), '--force-empty')
+    s.run('sync', '--test-kill-after-sync', '--force-empty')
+    for d, rel, data, mt in victims:
+        same = rng.chance(1, 2)
+        a.write(d, rel, data, mt if same else s.tick()); s.log('%s/%r comes back with the same bytes (%s time-stamp)' % (d, rel, 'same' if same else 'new'))
+    if rng.chance(1, 3): s.fs_create()
+    r = s.run('sync', '--force-empty')
+    stats['comeback'] = stats.get('comeback', 0) + 1
+    cfg = 'comeback ndisks=%d nparity=%d hashsize=%d seed=%d' % (a.ndisks, a.nparity, a.hashsize, seed)
+    pr, st = s.invariant_problems()
+    res = None
+    if pr:
+        res = ('after the final sync (%s): %s' % (cfg, pr[0]), 'config: %s\nproblems:\n%s\nhistory:\n%s' % (cfg, '\n'.join(pr[:10]), '\n'.join(s.history)))
+    elif r.rc == 0:
+        c = a.cmd('check')
+        if c.rc != 0:
+            res = ('check fails after a successful sync (%s): exit %d' % (cfg, c.rc), 'config: %s\n%s\nhistory:\n%s' % (cfg, c.out[-800:], '\n'.join(s.history)))
+    a.destroy()
+    return res
 
 def main(tier, seed):
     chk = vlib.Check('C06', 'proof', tier, seed)
@@ -91,8 +135,11 @@ def main(tier, seed):
     from concurrent.futures import ThreadPoolExecutor
     def job(i):
         return i, one_history(exe, os.path.join(vlib.scratch(), 'h%d' % i), seed * 100000 + i, steps, chk, stats)
+    ncb = 32 if tier == 'quick' else 300
+    def job2(i):
+        return nhist + i, comeback_history(exe, os.path.join(vlib.scratch(), 'cb%d' % i), seed * 100000 + 7000 + i, stats)
     with ThreadPoolExecutor(vlib.NCPU) as ex:
-        res = list(ex.map(job, range(nhist)))
+        res = list(ex.map(job, range(nhist))) + list(ex.map(job2, range(ncb)))
     nbad = 0
     for i, r in res:
         if r:
@@ -104,7 +151,7 @@ def main(tier, seed):
             chk.violation('C06 static obligation failed: ' + o[0], o[0] + '\n' + o[2], False, 'static')
     chk.evaluations = stats.get('checked_levels', 0)
     chk.distinct = stats.get('synced_stripes', 0)
-    chk.rule = ('%d seeded histories x %d commands from {sync, -B, -S -B, kill-after-sync, -h, -F, -R, forced autosave, scrub, fix (filtered), touch, rehash} interleaved with 1-5 random file operations; after EVERY command the content file is decoded by the Lean decoder and, for every stripe whose allocated blocks are all BLK, parity of every level is recomputed by the Lean genSpec from the harness version store and compared with the parity files; extent well-formedness checked on the decoded map. evaluations = stripe-levels compared, distinct_nontrivial = fully synced stripes examined' % (nhist, steps))
+    chk.rule = ('%d seeded histories x %d commands from {sync, -B, -S -B, kill-after-sync, -h, -F, -R, forced autosave, scrub, fix (filtered), touch, rehash} interleaved with 1-5 random file operations; after EVERY command the content file is decoded by the Lean decoder and, for every stripe whose allocated blocks are all BLK, parity of every level is recomputed by the Lean genSpec from the harness version store and compared with the parity files; extent well-formedness checked on the decoded map. plus %d come-back histories (files deleted, parity updated by a sync killed before the content save, the same bytes restored, plain sync). evaluations = stripe-levels compared, distinct_nontrivial = fully synced stripes examined' % (nhist, steps, ncb))
     chk.samples = [dict(stats)]
     chk.corr['E2E-INV'] = {k: v for k, v in stats.items() if k != 'commands'}
     chk.extra['command_distribution'] = stats['commands']
